@@ -1471,6 +1471,22 @@ class Macro:
             res_tokens.append(tok)
         self.replacement = res_tokens
 
+        # A parameter needs pre-expansion only where it is used plainly:
+        # not as the operand of # nor on either side of ##.  (A left operand
+        # of ## was first seen as an ordinary identifier above.)
+        if hasattr(self, "arg_needs_expansion"):
+            needed = [False for _ in self.arg_needs_expansion]
+            for i, tok in enumerate(res_tokens):
+                arg_idx = self.which_arg(tok.token)
+                if arg_idx == -1 or not isinstance(tok, Identifier):
+                    continue
+                before = res_tokens[i - 1].token if i > 0 else None
+                after = res_tokens[i + 1].token if i + 1 < len(res_tokens) else None
+                if before in ("#", "##") or after == "##":
+                    continue
+                needed[arg_idx] = True
+            self.arg_needs_expansion = needed
+
     def __repr__(self):
         return _representation_string(self)
 
